@@ -31,6 +31,8 @@
 #ifndef REALBPP
 #define REALBPP BPP
 #endif
+/* bytes of one CPIXEL on the wire: 15-bit pixels travel in 2 bytes */
+#define REALBYTES ((REALBPP + 7) / 8)
 
 #if !defined(UNCOMP) || UNCOMP==0
 #define HandleZRLE CONCAT2E(HandleZRLE,REALBPP)
@@ -87,7 +89,7 @@ HandleZRLE (rfbClient* client, int rx, int ry, int rw, int rh)
 	int remaining;
 	int inflateResult;
 	int toRead;
-	int min_buffer_size = rw * rh * (REALBPP / 8) * 2;
+	int min_buffer_size = rw * rh * REALBYTES * 2;
 
 	/* First make sure we have a large enough raw buffer to hold the
 	 * decompressed data.  In practice, with a fixed REALBPP, fixed frame
@@ -269,29 +271,29 @@ static int HandleZRLETile(rfbClient* client,
 #if REALBPP!=BPP
 			int i,j;
 
-			if(1+w*h*REALBPP/8>buffer_length) {
-				rfbClientLog("expected %d bytes, got only %d (%dx%d)\n",1+w*h*REALBPP/8,buffer_length,w,h);
+			if(1+w*h*REALBYTES>buffer_length) {
+				rfbClientLog("expected %d bytes, got only %d (%dx%d)\n",1+w*h*REALBYTES,buffer_length,w,h);
 				return -3;
 			}
 
 			for(j=y*client->width; j<(y+h)*client->width; j+=client->width)
-				for(i=x; i<x+w; i++,buffer+=REALBPP/8)
+				for(i=x; i<x+w; i++,buffer+=REALBYTES)
 					((CARDBPP*)client->frameBuffer)[j+i] = UncompressCPixel(buffer);
 #else
 			client->GotBitmap(client, buffer, x, y, w, h);
-			buffer+=w*h*REALBPP/8;
+			buffer+=w*h*REALBYTES;
 #endif
 		}
 		else if( type == 1 ) /* solid */
 		{
 			CARDBPP color = UncompressCPixel(buffer);
 
-			if(1+REALBPP/8>buffer_length)
+			if(1+REALBYTES>buffer_length)
 				return -4;
 				
 			client->GotFillRect(client, x, y, w, h, color);
 
-			buffer+=REALBPP/8;
+			buffer+=REALBYTES;
 
 		}
 		else if( type <= 127 ) /* packed Palette */
@@ -302,11 +304,11 @@ static int HandleZRLETile(rfbClient* client,
 				mask=(1<<bpp)-1,
 				divider=(8/bpp);
 
-			if(1+type*REALBPP/8+((w+divider-1)/divider)*h>buffer_length)
+			if(1+type*REALBYTES+((w+divider-1)/divider)*h>buffer_length)
 				return -5;
 
 			/* read palette */
-			for(i=0; i<type; i++,buffer+=REALBPP/8)
+			for(i=0; i<type; i++,buffer+=REALBYTES)
 				palette[i] = UncompressCPixel(buffer);
 
 			/* read palettized pixels */
@@ -331,10 +333,10 @@ static int HandleZRLETile(rfbClient* client,
 			while(j<h) {
 				int color,length;
 				/* read color */
-				if(buffer+REALBPP/8+1>buffer_end)
+				if(buffer+REALBYTES+1>buffer_end)
 					return -7;
 				color = UncompressCPixel(buffer);
-				buffer+=REALBPP/8;
+				buffer+=REALBYTES;
 				/* read run length */
 				length=1;
 				while(*buffer==0xff) {
@@ -368,11 +370,11 @@ static int HandleZRLETile(rfbClient* client,
 			CARDBPP palette[128];
 			int i,j;
 
-			if(2+(type-128)*REALBPP/8>buffer_length)
+			if(2+(type-128)*REALBYTES>buffer_length)
 				return -9;
 
 			/* read palette */
-			for(i=0; i<type-128; i++,buffer+=REALBPP/8)
+			for(i=0; i<type-128; i++,buffer+=REALBYTES)
 				palette[i] = UncompressCPixel(buffer);
 			/* read palettized pixels */
 			i=j=0;
@@ -425,3 +427,4 @@ static int HandleZRLETile(rfbClient* client,
 
 #undef UNCOMP
 #undef REALBPP
+#undef REALBYTES
